@@ -157,6 +157,23 @@ void runC17(Ctx &c)
             c.check("C17.value_continuous_at_switch", std::fabs(m.toTime(nextUp(0.0, 1)) - m.toTime(nextDown(0.0, 1))), 1e-15, tkey("c0_at_switch"));
             c.event("switch_probes");
         }
+        // durations a user would write down, and the images of whole-number variables, with their neighbours
+        if (idx == 0)
+        {
+            std::vector<double> special{0.001, 0.01, 0.05, 0.1, 0.2, 0.25, 0.3, 0.4, 0.5, 0.6, 0.75, 0.8, 1.0, 1.25, 1.5, 2.0, 2.5, 3.0, 4.0, 5.0, 10.0, 60.0, 100.0, 1000.0};
+            for (int k = -12; k <= 12; ++k)
+            {
+                special.push_back(m.toTime((double)k));
+                special.push_back(m.toTime(k + 0.5));
+            }
+            for (double T0 : special)
+                for (int n = -3; n <= 3; ++n)
+                {
+                    double T = n >= 0 ? nextUp(T0, n) : nextDown(T0, -n);
+                    checkT(c, m, T);
+                    c.event("duration_points.special");
+                }
+        }
         // durations
         for (int q = 0; q < 400; ++q)
         {
